@@ -9,6 +9,8 @@ import Yabgp.Lemmas.Compose
 import Yabgp.Props.C09
 import Yabgp.Props.C07a
 import Yabgp.Props.C07b
+import Yabgp.Props.C15b
+import Yabgp.Props.C11b
 
 namespace Yabgp
 open Spec
